@@ -248,11 +248,15 @@ Lemma P_b_sound c :
   /\ (c_has_results c = true ->
       obs_winner_is_max (c_cfgs c) P (c_win c) /\ obs_providers_ok P (c_win c) (c_providers c)
       /\ (forall j, In j (c_providers c) -> In j (c_allp c)))
-  /\ (c_mode c <> MStrategy -> Forall (obs_served_ok (c_cfgs c) P) (c_served c)).
+  /\ (c_mode c <> MStrategy -> Forall (obs_served_ok (c_cfgs c) P) (c_served c))
+  /\ (c_mode c <> MStrategy ->
+      Forall (obs_served_ok (c_cfgs c) P) (c_late_served c)
+      /\ forall o, auction_outcome c = Some o -> Forall (eq o) (c_late_served c)).
 Proof.
   intros Hnd Hlog Hpb P. pose proof (cands_iff_acceptable c Hnd Hlog) as HP.
-  unfold P_b in Hpb. apply andb_true_iff in Hpb as [Hpb Hserved]. apply andb_true_iff in Hpb as [Hpanic Hres].
-  split; [apply negb_true_iff; exact Hpanic|]. split.
+  unfold P_b in Hpb. apply andb_true_iff in Hpb as [Hpb Hlate]. apply andb_true_iff in Hpb as [Hpb Hserved].
+  apply andb_true_iff in Hpb as [Hpanic Hres].
+  split; [apply negb_true_iff; exact Hpanic|]. split; [|split].
   - intros Hhas. rewrite Hhas in Hres. apply andb_true_iff in Hres as [Hres Hallp]. apply andb_true_iff in Hres as [Hwin Hprov].
     split; [apply (win_ok_sound c P HP Hwin)|]. split; [apply (providers_ok_sound c P HP Hprov)|].
     unfold allp_ok in Hallp. apply andb_true_iff in Hallp as [Hallp _]. rewrite forallb_forall in Hallp.
@@ -261,4 +265,15 @@ Proof.
       (apply andb_true_iff in Hserved as [Hserved _]; apply andb_true_iff in Hserved as [_ Hserved];
        rewrite forallb_forall in Hserved; apply Forall_forall; intros s Hs;
        apply (served_ok_sound c P HP s), Hserved, Hs).
+  - intros Hmode. unfold late_ok in Hlate.
+    assert (Hl : forallb (served_ok c) (c_late_served c)
+                 && match auction_outcome c with
+                    | Some o => forallb (fun s => option_eqb N.eqb s o) (c_late_served c)
+                    | None => true
+                    end = true) by (destruct (c_mode c); [contradiction | exact Hlate | exact Hlate]).
+    apply andb_true_iff in Hl as [Hl1 Hl2]. split.
+    + rewrite forallb_forall in Hl1. apply Forall_forall. intros s Hs.
+      apply (served_ok_sound c P HP s), Hl1, Hs.
+    + intros o Ho. rewrite Ho in Hl2. rewrite forallb_forall in Hl2. apply Forall_forall. intros s Hs.
+      specialize (Hl2 s Hs). apply (proj1 (option_eqb_spec N.eqb N.eqb_eq s o)) in Hl2. symmetry. exact Hl2.
 Qed.
